@@ -236,11 +236,13 @@ class Gen:
                 sc.add("flog", "flog %s %s" % (hx(oid), hx(p)), kind="flog", id=oid)
         sc.add("diffstaged", "diffstaged %s" % hx(oid), kind="diff", id=oid)
 
-    def commit(self, oid, root=None):
+    def commit(self, oid, root=None, meta=None):
         sc, rng = self.sc, self.rng
         user = rng.choice(USERS + [None] + (H_META if self.hostile else []))
         addr = rng.choice(ADDRS + (H_META[:3] if self.hostile else [])) if user else None
         msg = rng.choice(["first", "update", None, "mësságe with \"quotes\""] + (H_META if self.hostile else []))
+        if meta:
+            user, addr, msg = meta
         created = self.ts()
         if root is None and self.layout[0] == "none":
             root = "objects/o%d" % self.ids.index(oid) if self.hostile else "objects/" + oid.replace(":", "_")
@@ -346,6 +348,36 @@ class Gen:
         sc.add("resetall", "resetall %s" % hx(oid), kind="mut", id=oid)
         self.observe_staged(oid)
 
+    def lookalike(self):
+        """an object is purged and created again with the same paths, contents, author and message - only the time of
+        the commit (and possibly the content directory) differs - while the other client holds a version staged on
+        the purged one: committing that version must be refused, the new object keeps its versions as they are"""
+        sc, rng = self.sc, self.rng
+        n = len(sc.steps)
+        oid = "look%d" % n
+        self.ids.append(oid)
+        self.objs[oid] = dict(alg="sha512", cdir="content")
+        meta = (rng.choice(USERS), None, "same words")
+        rel, rel2 = "look%d/f.txt" % n, "look%d/g.txt" % n
+        self.mkfile(rel, ("lookalike %d" % n).encode())
+        self.mkfile(rel2, ("later %d" % n).encode())
+        root = ("objects/%s" % oid) if self.layout[0] == "none" else None
+        sc.add("client", "client 0", kind="skipd")
+        sc.add("new", "new %s sha512 %s 0 -" % (hx(oid), hx("content")), kind="mut", id=oid, cdir="content")
+        sc.add("cpx", "cpx %s 0 %s %s" % (hx(oid), hx("d/"), hx(rel)), kind="mut", id=oid)
+        self.commit(oid, root=root, meta=meta)
+        sc.add("cpx", "cpx %s 0 %s %s" % (hx(oid), hx("later/"), hx(rel2)), kind="mut", id=oid)
+        sc.add("client", "client 1", kind="skipd")
+        sc.add("purge", "purge %s" % hx(oid), kind="mut", id=oid)
+        cd2 = rng.choice(["content", "data"])
+        sc.add("new", "new %s sha512 %s 0 -" % (hx(oid), hx(cd2)), kind="mut", id=oid, cdir=cd2)
+        sc.add("cpx", "cpx %s 0 %s %s" % (hx(oid), hx("d/"), hx(rel)), kind="mut", id=oid)
+        self.commit(oid, root=root, meta=meta)
+        sc.add("client", "client 0", kind="skipd")
+        self.commit(oid, root=root, meta=meta)
+        sc.add("resetall", "resetall %s" % hx(oid), kind="mut", id=oid)
+        self.observe_staged(oid)
+
     def diverge(self, oid):
         """one client stages on the current head; the other purges the object, creates it again and commits
         fewer, as many or more versions; then the first client commits its now baseless staged version"""
@@ -392,6 +424,9 @@ class Gen:
             return
         if self.two_clients and rng.random() < 0.08:
             self.twin_create()
+            return
+        if self.two_clients and rng.random() < 0.08:
+            self.lookalike()
             return
         r0 = rng.random()
         if r0 < (0.10 if self.observe_history else 0.05):
